@@ -525,6 +525,9 @@ def main(argv):
         print(__doc__)
         return 2
     if argv[0] == 'replay':
+        if len(argv) < 2:
+            print('usage: ./check replay <replay file>')
+            return 2
         return replay(argv[1])
     if argv[0] == 'selftest':
         import selftest
